@@ -373,7 +373,7 @@ pub fn run(a: &Args) {
     for compressed in [true, false] {
         for i in 0..n {
             let nframes = match i % 5 { 0 => rng.range(1, 5), 1 => rng.range(5, 40), 2 | 3 => rng.range(40, 200), _ => rng.range(200, 700) } as usize;
-            let id = format!("session {} {} {} {} {}", mode_tag(compressed), rng.next() % 1_000_000, nframes, i % 6, *rng.pick(&[0u64, 0, 10, 40]));
+            let id = format!("session {} {} {} {} {}", mode_tag(compressed), rng.next() % 1_000_000, nframes, i % 6, *rng.pick(&[0u64, 0, 10, 40, 93]));   // 93: runs of 16 and more control / text messages between two binary ones are common
             let small = nframes < 200;
             let _ = run_session_case(&id, &rt, &mut st, if small { Some(&mut out) } else { None }, &mut rng);
             if i % 6 >= 2 && i % 6 <= 4 && nframes >= 2 && distinct.insert(fnv(&id)) { st.distinct_nontrivial += 1; }
